@@ -1,6 +1,7 @@
 package main
 
 import (
+	"time"
 	"os"
 	"fmt"
 	"go/types"
@@ -432,7 +433,11 @@ func strHash(s Str) *T {
 func timeStub(m *Machine, fn *ssa.Function, args []Value) (Value, int) {
 	name := fn.Name()
 	res := fn.Signature.Results()
+	var override []*T // when set: the arguments that identify the result (concrete evaluation)
 	collect := func() []*T {
+		if override != nil {
+			return override
+		}
 		var as []*T
 		var rec func(v Value)
 		rec = func(v Value) {
@@ -510,6 +515,35 @@ func timeStub(m *Machine, fn *ssa.Function, args []Value) (Value, int) {
 	}
 	if res.Len() == 0 {
 		return nil, 1
+	}
+	if name == "Parse" && len(args) == 2 {
+		// concrete layout and text: the real time.Parse decides; the result is identified by (seconds, nanoseconds, zone offset)
+		if l, ok1 := args[0].(Str); ok1 {
+			if v, ok2 := args[1].(Str); ok2 {
+				conc := func(x Str) (string, bool) {
+					b := make([]byte, len(x.B))
+					for i, c := range x.B {
+						if !c.IsC {
+							return "", false
+						}
+						b[i] = byte(c.C)
+					}
+					return string(b), true
+				}
+				ls, okl := conc(l)
+				vs, okv := conc(v)
+				if okl && okv {
+					tm, err := time.Parse(ls, vs)
+					if err != nil {
+						errSeq++
+						return Tuple{zeroValue(res.At(0).Type()), m.opaqueErr(fmt.Sprintf("time.Parse#%d", errSeq))}, 1
+					}
+					_, off := tm.Zone()
+					override = []*T{BV(64, uint64(tm.Unix())), BV(64, uint64(tm.Nanosecond())), BV(64, uint64(int64(off)))}
+					return Tuple{mk(res.At(0).Type(), "ParseC"), Iface{}}, 1
+				}
+			}
+		}
 	}
 	if name == "Parse" || name == "ParseInLocation" {
 		as := collect()
@@ -1067,6 +1101,36 @@ func registerIntrinsics(m *Machine) {
 	// zzSameTerm(a, b): the two floats are the same term (same operations on the same inputs); native: same bits
 	I["zzSameTerm"] = func(m *Machine, fr *Frame, a []Value, call ssa.Instruction, d bool) (Value, int) {
 		return done(BoolC(a[0].(*T) == a[1].(*T)))
+	}
+	// zzSameTime(a, b): the two time.Time values are the same terms (the same uninterpreted constructor applied to the
+	// same arguments); native: a.Equal(b)
+	I["zzSameTime"] = func(m *Machine, fr *Frame, a []Value, call ssa.Instruction, d bool) (Value, int) {
+		var same func(x, y Value) bool
+		same = func(x, y Value) bool {
+			switch p := x.(type) {
+			case *T:
+				q, ok := y.(*T)
+				return ok && p == q
+			case Struct:
+				q, ok := y.(Struct)
+				if !ok || len(p.F) != len(q.F) {
+					return false
+				}
+				for i := range p.F {
+					if !same(p.F[i], q.F[i]) {
+						return false
+					}
+				}
+				return true
+			case Ptr:
+				q, ok := y.(Ptr)
+				return ok && p.L == q.L && p.Nil == q.Nil
+			case nil:
+				return y == nil
+			}
+			return false
+		}
+		return done(BoolC(same(a[0], a[1])))
 	}
 	I["zzIgnoreZeroSign"] = func(m *Machine, fr *Frame, a []Value, call ssa.Instruction, d bool) (Value, int) {
 		old := fpIgnoreZeroSign
